@@ -74,6 +74,25 @@ def generated(rep, thorough):
             add(alg, PublicKeyParamsEcdsa(point_x=rng.getrandbits(bits - rng.choice([0, 9])), point_y=rng.getrandbits(bits - rng.choice([0, 17])), named_group=grp))
     for _ in range(3):
         add(DnsSecAlgorithm.ED25519, PublicKeyParamsEddsa(curve_type=NamedGroup.CURVE25519, key_data=bytes(rng.randrange(256) for _ in range(32))))
+    # boundary of the key tag fold: RDATA whose 16-bit word sum T has (T mod 2^16) + (T div 2^16) >= 2^16, and its neighbours
+    for target in (0x1ffff, 0x1fffe, 0x2fffe, 0x2ffff, 0x2fffd, 0x3fffd, 0x4fffc, 0x5fffb, 0xffff, 0x10000, 0x10001):
+        for _ in range(3):
+            words = [0x0101, 0x030f] + [rng.randrange(65536) for _ in range(15)]
+            last = target - sum(words)
+            tries = 0
+            while not 0 <= last <= 0xffff and tries < 200:
+                i = rng.randrange(2, len(words))
+                words[i] = 0xffff if last > 0xffff else 0
+                last = target - sum(words)
+                tries += 1
+            if 0 <= last <= 0xffff:
+                key = b''.join(w.to_bytes(2, 'big') for w in words[2:] + [last])
+                try:
+                    out.append(DnsRecordDnskey([DnsSecFlag.DNS_ZONE_KEY, DnsSecFlag.SECURE_ENTRY_POINT], DnsSecAlgorithm.ED25519,
+                                               PublicKey.from_params(PublicKeyParamsEddsa(curve_type=NamedGroup.CURVE25519, key_data=key)),
+                                               DnsSecProtocol.V3))
+                except Exception:  # pylint: disable=broad-except
+                    pass
     for total in (0, 1, 254, 255, 256, 257, 510, 511, 600):
         try:
             out.append(DnsRecordTxt(''.join(chr(0x61 + i % 26) for i in range(total))))
